@@ -216,6 +216,30 @@ def island_jobs(cases, planners, n_cases, rng):
     return jobs
 
 
+def flip_jobs(cases, planners, n_maps, rng):
+    """Every declared on/off parameter of every planner, flipped alone to its non-default value, on maps that need
+    a way round obstacles, under a budget that lets the planner work (rewire, prune, connect) - the branches a
+    default configuration never takes."""
+    pool = [c for c in cases if c["reachable"] and not c["same"] and 2 <= len(c["obst"]) <= 5]
+    jobs = []
+    for p in planners:
+        flips = []
+        for q in p.get("params", []):
+            if q["range"] == "0,1" and q["name"] not in PARAM_SKIP:
+                v = "0" if q["default"] in ("1", "true") else "1"
+                out = sanitize_params(p, {q["name"]: v})
+                if out.get(q["name"]) == v:
+                    flips.append(out)
+        for out in flips:
+            for c in rng.sample(pool, min(n_maps, len(pool))):
+                jobs.append({"case": c, "runs": [{
+                    "planner": p["name"], "space": rng.choice(["R2", "R2", "SE2"]), "thr": rng.choice(["tiny", "cell"]),
+                    "range": rng.choice(["default", "default", "tiny"]),
+                    "budget": 6000 if p["flags"] & (F_MT | F_SLOW) else rng.choice([1500, 4000]),
+                    "seed": rng.randrange(1, 1 << 30), "res": 0.01, "query": "single", "params": dict(out)}]})
+    return jobs
+
+
 def judge(ck, trace, label):
     rows = vlib.read_ndjson(trace)
     bad = []
@@ -267,13 +291,14 @@ def run(tier):
         jobs, chosen = make_jobs(cases3, planners, 36, 1, rng)
         jobs += directional_jobs(cases3, planners, 8, rng)
         jobs += island_jobs(cases3, planners, 8, rng)
+        jobs += flip_jobs(cases3, planners, 6, rng)
     else:
         cases4 = enum_cases(ck, 4, 4, 3, "world4x4")
         ck.set("configurations_4x4_up_to_symmetry", len(cases4))
         # (sized for about an hour on 16 cores: every run is its own process and parameters are swept)
         j3, c3 = make_jobs(cases3, planners, 250, 1, rng)
         j4, c4 = make_jobs(cases4, planners, 40, 2, rng)
-        jobs, chosen = j3 + j4 + directional_jobs(cases3, planners, 30, rng) + island_jobs(cases3 + cases4, planners, 40, rng), c3 + c4
+        jobs, chosen = j3 + j4 + directional_jobs(cases3, planners, 30, rng) + island_jobs(cases3 + cases4, planners, 40, rng) + flip_jobs(cases3 + cases4, planners, 12, rng), c3 + c4
     jpath = os.path.join(WORK, "c01-jobs.ndjson")
     vlib.write_ndjson(jpath, jobs)
     trace, total, notes = planrun.run_sharded(binary, "c01", jpath, os.path.join(WORK, "c01-trace"))
